@@ -89,7 +89,11 @@ func (ci *ChunkInfo) updateNeighborChunkInfo(rootCid, cid boson.Address, overlay
 	}
 	bv, ok := ci.ct.presence[rc][over]
 
-	v := ci.getCidSort(rootCid, cid)
+	v, ok := ci.getCidSort(rootCid, cid)
+	if !ok {
+		// not a data chunk of the file: nothing to mark
+		return nil
+	}
 	bv.Set(v)
 	bit := BitVector{B: bv.Bytes(), Len: bv.Len()}
 	if overlay.Equal(ci.addr) {
